@@ -1033,6 +1033,7 @@ func init() {
 			{Name: "random", Weight: 3, Fn: c18Random},
 			{Name: "authorizer-failures", Weight: 3, Fn: c18Faults},
 			{Name: "config-wiring", Weight: 2, Fn: c18Wiring},
+			{Name: "remote-authorizer", Weight: 2, Fn: c18Remote},
 			{Name: "exhaustive-small", Prologue: true, Fn: c18Exhaustive},
 		},
 		Components: map[string][]string{
